@@ -17,6 +17,7 @@ a directory is names joined by `/` (`~` = the download directory itself).
   `cut <id>`             the task ends, connection lost → `done`
   `remove <id>`          the user moves the file of the completed download away → `removed` | `noop`
   `requeue <id>`         `queue()` on the ended download, not started yet → `done`
+  `abort <id>`           `abort()` on a download that ended early: partial file deleted, path forgotten → `removed` | `noop`
   `dump`                 → `held <id>:<dir>:<name>:<r|c|b>,… fs <entry>,…` (both sorted)
 -/
 open AioslskVerif.Naming
@@ -109,6 +110,12 @@ def handle (s : Sys) (line : String) : Sys × String :=
     match id.toNat? with
     | some id =>
       let res := step [] s (.remove id)
+      (res.1, match res.2 with | .removed => "removed" | _ => "noop")
+    | none => (s, "bad-op")
+  | ["abort", id] =>
+    match id.toNat? with
+    | some id =>
+      let res := step [] s (.abort id)
       (res.1, match res.2 with | .removed => "removed" | _ => "noop")
     | none => (s, "bad-op")
   | ["requeue", id] =>
